@@ -15,9 +15,9 @@ Roots == [ rmap |-> M(<<P(S(<<"k">>), S(<<"m", "v">>)), P(S(<<"n">>), I(5)), P(S
            rint |-> I(5),
            rstr |-> S(<<"a", "b">>),
            rbool |-> B(TRUE),
-           fsum |-> Func("sum"), fcat |-> Func("cat"), fanyv |-> Func("anyv"), fctx |-> Func("ctx"), fnil |-> Func("nilres"), fm1 |-> Func("M1"), fme |-> Func("ME") ]
+           fsum |-> Func("sum"), fcat |-> Func("cat"), fanyv |-> Func("anyv"), fctx |-> Func("ctx"), fctxv |-> Func("ctxv"), fnil |-> Func("nilres"), fm1 |-> Func("M1"), fme |-> Func("ME") ]
 RootNames == <<"rmap", "rmapi", "rlist", "rarr", "rstruct", "rptr", "rnilptr", "rint", "rstr", "rbool", "rnope",
-               "fsum", "fcat", "fanyv", "fctx", "fnil", "fm1", "fme">>
+               "fsum", "fcat", "fanyv", "fctx", "fctxv", "fnil", "fm1", "fme">>
 
 NoCall(st) == st @@ [call |-> FALSE, args |-> <<>>]
 WithCall(st, a) == st @@ [call |-> TRUE, args |-> a]
@@ -28,7 +28,8 @@ PlainSteps == << NameS("F"), NameS("G"), NameS("N"), NameS("h"), NameS("nope"), 
                  NameS("P"), NameS("Fn"), NameS("M0"), NameS("MV"), NameS("ME"), NameS("PM0"),
                  IdxS(0), IdxS(1), IdxS(2), IdxS(5),
                  SubS(I(0)), SubS(I(1)), SubS(I(9)), SubS(I(0 - 1)), SubS(S(<<"k">>)), SubS(S(<<"F">>)), SubS(S(<<"h">>)), SubS(S(<<"z", "z">>)), SubS(Nil) >>
-ArgLists == << <<>>, <<I(1)>>, <<I(1), I(2)>>, <<S(<<"a">>), S(<<"b">>)>>, <<S(<<"a">>)>>, <<Nil>>, <<I(1), S(<<"x">>)>> >>
+ArgLists == << <<>>, <<I(1)>>, <<I(1), I(2)>>, <<S(<<"a">>), S(<<"b">>)>>, <<S(<<"a">>)>>, <<Nil>>, <<I(1), S(<<"x">>)>>,
+              <<I(1), I(2), I(3)>>, <<I(1), I(2), I(3), I(4)>>, <<I(5), I(4), I(3), I(2), I(1)>>, <<I(1), I(2), I(3), I(4), I(5), I(6), I(7)>>, <<I(1), I(2), S(<<"x">>)>> >>
 CallSteps == << NameS("M0"), NameS("M1"), NameS("MV"), NameS("PM0"), NameS("Fn"), NameS("F"), NameS("nope") >>
 
 VARIABLES root, rootCall, rootArgs, steps, go
